@@ -167,6 +167,7 @@ class Session:
         s.bind(("127.0.0.1", rebind_port or free_port()))
         s.setblocking(False)
         self.sock = s
+        self.port = s.getsockname()[1]
         self.reader = asyncio.ensure_future(self._read_udp())
 
     async def _read_udp(self):
@@ -637,7 +638,14 @@ async def main(args):
             port = s.sock.getsockname()[1]
             s.send(args.seed, origins[0], 333)  # reply comes 80 ms later
             await asyncio.sleep(0.01)
+            # stop the reader task and WAIT for it before closing: otherwise the event loop may still have a reader registered for
+            # this descriptor number when another session's new socket gets the same number, and the old task would read the
+            # other session's datagrams
             s.reader.cancel()
+            try:
+                await s.reader
+            except (asyncio.CancelledError, Exception):
+                pass
             s.sock.close()
             s.sock = None
             await asyncio.sleep(0.5)
@@ -727,7 +735,10 @@ async def main(args):
                     out.violation("client received a datagram that is no reply to anything it sent: %s via %s" % (s.lk, s.ck), {"len": len(data), "head": data[:24].hex()})
                     continue
                 if (pp[0], pp[1]) != (s.client, s.session):
-                    out.violation("reply delivered to another session than the one that owns it: %s via %s" % (s.lk, s.ck), {"owner": (pp[0], pp[1]), "delivered_to": (s.client, s.session)})
+                    owner_s = [x for x in sessions if (x.client, x.session) == (pp[0], pp[1])]
+                    out.violation("reply delivered to another session than the one that owns it: %s via %s" % (s.lk, s.ck),
+                                  {"owner": (pp[0], pp[1]), "delivered_to": (s.client, s.session), "seq": pp[3], "size": pp[4], "at": round(t, 3),
+                                   "owner_path": [(x.lk, x.ck, getattr(x, "port", None)) for x in owner_s], "delivered_to_port": getattr(s, "port", None)})
                     continue
                 ent = s.sent.get(pp[3])
                 if ent is None or data[1:] != ent[1]:
